@@ -830,6 +830,7 @@ func (s *Server) handleIPCPConfigRequest(session *Session, pkt *LCPPacket) {
 
 	// Build response options
 	var respOpts []LCPOption
+	var rejOpts []LCPOption
 	nakOptions := false
 
 	for _, opt := range opts {
@@ -842,6 +843,10 @@ func (s *Server) handleIPCPConfigRequest(session *Session, pkt *LCPPacket) {
 					Data: session.ClientIP.To4(),
 				})
 				nakOptions = true
+			} else {
+				// No address could be assigned to this session (pool exhausted):
+				// the peer must not pick one itself, it may be another session's.
+				rejOpts = append(rejOpts, opt)
 			}
 		case IPCPOptPrimaryDNS:
 			if s.primaryDNS != nil {
@@ -864,7 +869,11 @@ func (s *Server) handleIPCPConfigRequest(session *Session, pkt *LCPPacket) {
 
 	var respCode uint8
 	var respData []byte
-	if nakOptions {
+	if len(rejOpts) > 0 {
+		// Configure-Reject takes precedence over Configure-Nak (RFC 1661)
+		respCode = LCPCodeConfigReject
+		respData = SerializeLCPOptions(rejOpts)
+	} else if nakOptions {
 		respCode = LCPCodeConfigNak
 		respData = SerializeLCPOptions(respOpts)
 	} else {
